@@ -102,6 +102,7 @@ def parseLine (views : Views) (ws : List String) : Option (Views × Option TEv) 
     | ["status", i, st, il, lid, tok, rev, il2] =>
       ev (.status (← parseNat i) (← parseNat st) (← parseBool il) (← parseNat lid) (← parseNat tok) (← parseNat rev) (← parseBool il2))
     | ["observe", i] => ev (.observe (← parseNat i))
+    | ["wleft", n] => ev (.wleft (← parseNat n))
     | ["promgauge", i, v] => ev (.promGauge (← parseNat i) (← parseInt v))
     | ["promtrans", i, n] => ev (.promTrans (← parseNat i) (← parseNat n))
     | ["mpanic", i, m] => ev (.metricsPanic (← parseNat i) m)
